@@ -1,7 +1,8 @@
 #!/bin/bash
 # Thorough tier for one property. Everything is static analysis of source trees; nothing of /repo is executed.
 #   1. the property's rules on /repo's current tree (default GOARCH)              -> evidence/<id>.json
-#   2. the same rules on the program as built for GOARCH=386 (build-tagged files, 32-bit int)
+#   2. the same rules on the program as built for GOARCH=386 (build-tagged files, 32-bit int), GOOS=windows and
+#      GOOS=darwin (the other build-tagged socket / ECN / GSO files)
 #   3. sensitivity audit: every confirmed seeded change recorded for this property in seeded/DETECTION.json is
 #      applied to a scratch copy of the CURRENT tree and the rules are re-run on it; the audit records whether the
 #      rules report a violation that the current tree does not have. A seeded change that no longer applies is
@@ -23,19 +24,25 @@ rc1=$?
 grep -v conda "$work/main.out"
 [ $rc1 -le 1 ] || { echo "checker failed (exit $rc1)"; exit 2; }
 
-# 2. GOARCH=386
+# 2. other build configurations (build-tagged files, 32-bit int): GOARCH=386, GOOS=windows, GOOS=darwin
+rc2=0
 mkdir -p "$work/ev386"
-"$bin" -property "$prop" -tier thorough -repo "$repo" -verif "$here" -goarch 386 -evidence-dir "$work/ev386" > "$work/386.out" 2>&1
-rc2=$?
-[ $rc2 -le 1 ] || { grep -v conda "$work/386.out" | tail -5; echo "checker failed on GOARCH=386 (exit $rc2)"; exit 2; }
-if [ $rc2 -eq 1 ]; then
-  cp "$work/ev386/$prop.violations.json" "$here/evidence/$prop.386.violations.json"
-  grep -E "^  violated" "$work/386.out" | sed 's/^  violated/  violated [GOARCH=386]/'
-  echo "VIOLATION property=$prop replay=$here/evidence/$prop.386.violations.json"
-else
-  rm -f "$here/evidence/$prop.386.violations.json"
-fi
-grep -E "^property=" "$work/386.out" | sed 's/^/[GOARCH=386] /'
+for cfg in "goarch 386" "goos windows" "goos darwin"; do
+  set -- $cfg; flag=$1; val=$2; tag="${flag^^}=$val"
+  evd="$work/ev$val"; mkdir -p "$evd"
+  "$bin" -property "$prop" -tier thorough -repo "$repo" -verif "$here" -$flag "$val" -evidence-dir "$evd" > "$work/$val.out" 2>&1
+  rcx=$?
+  [ $rcx -le 1 ] || { grep -v conda "$work/$val.out" | tail -5; echo "checker failed on $tag (exit $rcx)"; exit 2; }
+  if [ $rcx -eq 1 ]; then
+    rc2=1
+    cp "$evd/$prop.violations.json" "$here/evidence/$prop.$val.violations.json"
+    grep -E "^  violated" "$work/$val.out" | sed "s/^  violated/  violated [$tag]/"
+    echo "VIOLATION property=$prop replay=$here/evidence/$prop.$val.violations.json"
+  else
+    rm -f "$here/evidence/$prop.$val.violations.json"
+  fi
+  grep -E "^property=" "$work/$val.out" | sed "s/^/[$tag] /"
+done
 
 # 3. sensitivity audit
 base_keys="$work/base.keys"
@@ -97,16 +104,17 @@ PY
 fi
 
 # merge into the evidence file
-python3 - "$here/evidence/$prop.json" "$work/ev386/$prop.json" "$audit" "$t0" "$spec" <<'PY'
-import json,sys,time
+python3 - "$here/evidence/$prop.json" "$work" "$audit" "$t0" "$spec" "$prop" <<'PY'
+import json,sys,time,os
 ev=json.load(open(sys.argv[1]))
-try:
-    e386=json.load(open(sys.argv[2]))
-    ev["coverage"]["goarch_386"]={k:e386["coverage"].get(k) for k in ("obligations","discharged","known_findings","functions_analysed")}
-    ev["coverage"]["goarch_386"]["violations"]=e386.get("violations",0)
-    ev["coverage"]["evaluations"]=ev["coverage"].get("evaluations",0)+e386["coverage"].get("evaluations",0)
-except Exception as ex:
-    ev["coverage"]["goarch_386"]={"error":str(ex)}
+for val,name in (("386","goarch_386"),("windows","goos_windows"),("darwin","goos_darwin")):
+    try:
+        e=json.load(open(os.path.join(sys.argv[2],"ev"+val,sys.argv[6]+".json")))
+        ev["coverage"][name]={k:e["coverage"].get(k) for k in ("obligations","discharged","known_findings","functions_analysed")}
+        ev["coverage"][name]["violations"]=e.get("violations",0)
+        ev["coverage"]["evaluations"]=ev["coverage"].get("evaluations",0)+e["coverage"].get("evaluations",0)
+    except Exception as ex:
+        ev["coverage"][name]={"error":str(ex)}
 audit=[json.loads(l) for l in open(sys.argv[3]) if l.strip()]
 ev["coverage"]["sensitivity_audit"]={"what":"confirmed seeded property-breaking changes (seeded/<id>/patch.diff) applied to a scratch copy of the current tree; the rules must report a violation absent from the current tree",
   "seeds":audit,"applied":sum(1 for a in audit if not a["status"].startswith("skipped")),"detected":sum(1 for a in audit if a["status"]=="detected")}
@@ -120,7 +128,7 @@ ev["tier"]="thorough"
 json.dump(ev,open(sys.argv[1],"w"),indent=1)
 a=ev["coverage"]["sensitivity_audit"]
 b=ev["coverage"]["specificity_audit"]
-print(f"[thorough] GOARCH=386 re-evaluated; sensitivity audit: {a['detected']}/{a['applied']} seeded changes detected; specificity audit: {b['silent']}/{b['applied']} behaviour-preserving refactorings leave the rules silent")
+print(f"[thorough] GOARCH=386, GOOS=windows, GOOS=darwin re-evaluated; sensitivity audit: {a['detected']}/{a['applied']} seeded changes detected; specificity audit: {b['silent']}/{b['applied']} behaviour-preserving refactorings leave the rules silent")
 PY
 if [ $rc1 -eq 1 ] || [ $rc2 -eq 1 ]; then exit 1; fi
 exit 0
